@@ -102,6 +102,17 @@ register("C04", "proof",
          "intervals cover liveness is not a theorem (false on the pinned tree) but decided per artefact.",
          "Lean 4 proofs (allocator invariants by induction; validator soundness by simulation) + translation validation of real allocations", "DESIGN.md §4 C04")
 
+register("C07", "proof",
+         "Lean theorems on the IC10 machine model: checkFall_sound — if the static region check accepts an emitted program then, for every environment and any number of steps, a step that leaves its region is a "
+         "jal/j to a function entry, a jump through a register (return / jump table), the end of the program, or an explicitly allowed edge (built on step_pc_mem_succs: a step lands on a static successor); "
+         "end_halts / halted_forever / after_end_nothing_runs — running off the end stops the chip and the trace never grows again. The hypothesis is established per real artefact: the check runs on the "
+         "allocated code of every shipped program, a family of terminating scripts with functions called live / only from compile-time-dead branches / in conditional expressions, and generated programs; regions "
+         "are the transpiler's own per-function code lists. A rejected artefact is executed on the machine to exhibit the illegal entry and the effects after it. The fall-through from the end of a terminating "
+         "main script into the first CALLED function is known finding F-C07-a (stored references encode it) and is the single allowed edge; an entry into a body no call reaches, or any other cross-region edge, "
+         "is a violation.",
+         TB + "PV.IC10 machine is a trusted specification; regions are captured harness-side from the transpiler's data structures.",
+         "Lean 4 proof (one-step control-flow lemma lifted to regions) + static check of real artefacts + machine execution", "DESIGN.md §4 C07")
+
 ALL = [f"C{i:02d}" for i in range(1, 19)]
 
 
